@@ -8,9 +8,9 @@ from mc.ref import bus as refbus
 
 ID = "C07"
 LEVEL = "exploration"
-LEVEL_TEXT = ("Complete enumeration of directive (.db/.dw/.dl/.pointer) x list length 1-3 x 17 value kinds per position "
+LEVEL_TEXT = ("Complete enumeration of directive (.db/.dw/.dl/.pointer) x list length 1-3 x 19 value kinds per position "
               "(boundary, wider than the field, negative, backward/forward label, `=` symbol, `:=` constant), all .ascii strings "
-              "<=3 over a 6-character alphabet, and .incbin for every (length, placement, file name) of a boundary family "
+              "<=3 over a 7-symbol alphabet (incl. the escaped quote), and .incbin for every (length, placement, file name) of a boundary family "
               "including lengths that end just before/at/after a bank end, each program assembled by the real assembler and "
               "compared byte-for-byte, label-for-label with the packing model. Tests check one .dl, one .dw list and one .ascii.")
 LEVEL_NOTE = ("Trusted: value mod 256^w little-endian; mc/ref/bus.py for offsets and the bank wrap of labels after a file. "
@@ -24,12 +24,14 @@ ASSUMPTIONS = ["packing model in this file", "programs start with *= in ROM; lab
 WIDTH = {".db": 1, ".dw": 2, ".dl": 3, ".pointer": 3}
 ORG = 0x018000
 KINDS = [("lit", v) for v in (0, 1, 0xFF, 0x100, 0xFFFF, 0x10000, 0xFFFFFF, 0x1000000, 0x12345678)] + \
-        [("neg", v) for v in (1, 0x80, 0x8000, 0x800000)] + [("back",), ("fwd",), ("eqsym",), ("const",)]
+        [("neg", v) for v in (1, 0x80, 0x8000, 0x800000)] + [("back",), ("fwd",), ("eqsym",), ("const",), ("shl",), ("she",)]
+# shl / she: a name that is a `:=` constant in the outer scope and a label / `=` symbol (defined after the directive)
+# in the block that contains the directive - the inner definition is the one the data must use
 KC, KE = 0x123456, 0x654321
 
 
 def bound(tier):
-    return ("4 directives x lists of length 1..3 over 17 value kinds (17+289+4913 lists each); 259 .ascii strings; .incbin: 9 lengths "
+    return ("4 directives x lists of length 1..3 over 19 value kinds (17+289+4913 lists each); 259 .ascii strings; .incbin: 9 lengths "
             "x 2 placements x 2 file names x 2 buses" + ("; plus every file length 0..300 at the bank end" if tier == "thorough" else ""))
 
 
@@ -57,7 +59,7 @@ def render(kind):
         return hex(kind[1])
     if kind[0] == "neg":
         return "-" + hex(kind[1])
-    return {"back": "back", "fwd": "fwd", "eqsym": "ke", "const": "kc"}[kind[0]]
+    return {"back": "back", "fwd": "fwd", "eqsym": "ke", "const": "kc", "shl": "shl", "she": "she"}[kind[0]]
 
 
 def value_of(kind, env):
@@ -77,12 +79,13 @@ def run_data(d, n, k0):
     ref = refbus.lorom()
     for rest in itertools.product(range(len(KINDS)), repeat=n - 1):
         kinds = [KINDS[k0]] + [KINDS[i] for i in rest]
-        after = ORG + 1 + n * w
-        env = {"back": ORG, "fwd": after + 4, "eqsym": KE, "const": KC}
-        src = (f"*=0x{ORG:06x}\nkc := 0x{KC:x}\nke = 0x{KE:x}\nback:\n.db 0x11\n{d} " + ", ".join(render(k) for k in kinds) +
-               "\nafter:\n.dw 0xEEDD, 0xBB01\nfwd:\n.db 0x22\n")
+        shl = ORG + 1 + n * w
+        after = shl + 1
+        env = {"back": ORG, "fwd": after + 4, "eqsym": KE, "const": KC, "shl": shl, "she": 0x77}
+        src = (f"*=0x{ORG:06x}\nkc := 0x{KC:x}\nke = 0x{KE:x}\nshl := 0x1234\nshe := 0x4321\nback:\n.db 0x11\n{{\n{d} " +
+               ", ".join(render(k) for k in kinds) + "\nshl:\n.db 0x33\nshe = 0x77\n}\nafter:\n.dw 0xEEDD, 0xBB01\nfwd:\n.db 0x22\n")
         data = b"".join((value_of(k, env) % (256 ** w)).to_bytes(w, "little") for k in kinds)
-        exp_block = b"\x11" + data + bytes.fromhex("ddee01bb22")
+        exp_block = b"\x11" + data + b"\x33" + bytes.fromhex("ddee01bb22")
         out = impl.assemble(src, rom="low_rom")
         evals += 1
         if any(k[0] != "lit" or k[1] >= 256 ** w for k in kinds):
@@ -111,7 +114,7 @@ def run_data(d, n, k0):
 
 
 def run_ascii():
-    alphabet = "aZ0 ~;"
+    alphabet = ["a", "Z", "0", " ", "~", ";", "\\'"]  # the last symbol is an escaped quote: backslash + quote, kept verbatim
     viol = []
     evals = 0
     ref = refbus.lorom()
